@@ -255,8 +255,10 @@ func (c *Conn) Write(p []byte) (int, error) {
 			if room < 0 {
 				room = 0
 			}
-			if n >= room {
-				// the write that reaches the limit fails, having put `room` bytes on the wire
+			if n > room {
+				// the write that crosses the limit fails, having put `room` bytes on the
+				// wire (a write that fits entirely succeeds: the kernel reports the
+				// failure on the next one)
 				n = room
 				err = opErr("write", errPipe)
 				c.Fired["write_err"]++
